@@ -32,3 +32,69 @@ package objectcore
 //@ func parseNumericFilterValue
 //@   opt wide=272
 //@   ensures [normalised] err == nil ==> (res0.neg ==> leval(res0.mag, 0, 4) != 0)
+
+// ---- C24: the format validator accepts an object only after every check answered
+// favourably; facts are keyed by the nesting level so that the (recursive) validation of a
+// parent header cannot stand in for a check of the object itself.
+
+//@ fileprops C24
+
+//@ ghost pred idMatchesHeader(level int) bool
+//@ ghost pred objAuthenticated(level int) bool
+//@ ghost pred isECObject(level int) bool
+//@ ghost pred attrsValid(level int) bool
+//@ ghost pred expirationValid(level int) bool
+//@ ghost pred ownerSet(level int) bool
+//@ ghost pred parentValidated(level int) bool
+//@ ghost pred hasZeroByte(s string) bool
+//@ ghost pred attrClean() bool
+
+//@ callrule c24_verify_id in (*FormatValidator).validate
+//@   callee (object.Object).VerifyID, (*object.Object).VerifyID
+//@   pureeffect
+//@   defines err == nil ==> idMatchesHeader(nestingLevel)
+//@ callrule c24_authenticate in (*FormatValidator).validate
+//@   callee crypto.AuthenticateObject
+//@   pureeffect
+//@   defines err == nil ==> objAuthenticated(nestingLevel)
+//@ callrule c24_ec_class in (*FormatValidator).validate
+//@   callee object.checkEC
+//@   pureeffect
+//@   defines res0 == isECObject(nestingLevel)
+//@ callrule c24_attrs in (*FormatValidator).validate
+//@   callee (*object.FormatValidator).checkAttributes
+//@   pureeffect
+//@   defines err == nil ==> attrsValid(nestingLevel)
+//@ callrule c24_expiration in (*FormatValidator).validate
+//@   callee (*object.FormatValidator).checkExpiration
+//@   pureeffect
+//@   defines err == nil ==> expirationValid(nestingLevel)
+//@ callrule c24_owner in (*FormatValidator).validate
+//@   callee (*object.FormatValidator).checkOwner
+//@   pureeffect
+//@   defines err == nil ==> ownerSet(nestingLevel)
+//@ callrule c24_parent in (*FormatValidator).validate
+//@   callee (*object.FormatValidator).validate
+//@   pureeffect
+//@   requires [ec_parent_is_validated_as_prepared] isECObject(nestingLevel) ==> !a2
+//@   requires [one_level_deeper] a4 == nestingLevel + 1
+//@   defines err == nil ==> parentValidated(nestingLevel)
+//@ callrule c24_getters_pure in (*FormatValidator).validate, (*FormatValidator).checkAttributes, (*FormatValidator).checkOwner
+//@   callee (*object.Object).*, (object.Object).*, (container.Container).*, (netmap.PlacementPolicy).*, (id.ID).*, (*id.ID).*, (user.ID).*, version.*, (object.Attribute).*, (*object.Attribute).*, dynamic:FormatValidator.containers
+//@   pureeffect
+
+//@ func (*FormatValidator).validate
+//@   requires [nesting_level_within_limit] 0 <= nestingLevel && nestingLevel <= 2
+//@   ensures [prepared_object_identified_and_authenticated] err == nil && !unprepared ==> idMatchesHeader(nestingLevel) && (isECObject(nestingLevel) || objAuthenticated(nestingLevel))
+//@   ensures [attributes_expiration_owner_checked] err == nil ==> attrsValid(nestingLevel) && expirationValid(nestingLevel) && ownerSet(nestingLevel)
+//@   ensures [parent_header_validated_too] err == nil && par != nil ==> parentValidated(nestingLevel)
+
+//@ callrule c24_zero_byte_scan in checkZeroByte
+//@   callee strings.IndexByte
+//@   defines a1 == 0 ==> ((result >= 0) == hasZeroByte(a0))
+//@ func checkZeroByte
+//@   ensures [no_zero_byte_in_key_or_value] err == nil ==> !hasZeroByte(k) && !hasZeroByte(v)
+//@   defines err == nil ==> attrClean()
+
+//@ func (*FormatValidator).checkAttributes
+//@   loop 1 iteration [every_attribute_unique_and_without_zero_byte] !was && attrClean()
